@@ -233,6 +233,7 @@ def _o_split(call):
 
 
 def install():
+    probe.enable_recall("C07.recall", every=5)
     m = "esutil.numpy_util:"
     probe.instrument(m + "extract_fields", [_o_extract])
     probe.instrument(m + "remove_fields", [_o_remove])
